@@ -11,6 +11,12 @@ CLAIMED = {
     note="Trusted: Lean kernel (axioms ⊆ propext, Classical.choice, Quot.sound), fidelity of the hand transcription (checked by correspondence, bounded by the generator: exhaustive to 4 keys quick / 6 keys thorough), BTreeMap and im_rc::OrdMap::diff as sorted-list semantics, harness + hooks.",
     ref="DESIGN.md §6 C18"),
 }
+ENGINE_NOTE = "Trusted: Lean kernel (axioms ⊆ propext, Classical.choice, Quot.sound, audited per run); fidelity of the hand-written engine model (a line-by-line logical port of node.rs/state.rs/heaps/var/observer code) — checked on every run by differential execution against /repo on generated histories over ALL trace channels relevant to the property, bounded by the generators; Rust harness + cfg hooks (registry, verif_snapshot, verif_audit); HashMap order abstracted (notifications of one round compared as a set)."
+CLAIMED["C09"] = dict(
+    technique="Lean 4 theorems about the handler automaton (closed form for every classification sequence) and the engine's round classification + differential correspondence + Lean predicate on the implementation's notification trace",
+    text="Kernel-checked: for EVERY sequence of per-round classifications, the update-handler table (handlerStep, the definition the executable model runs) delivers Initialised exactly once first, Changed exactly at the later rounds classified changed, one Invalidated and nothing after (closed form, by induction over the sequence); a node with an observer is never classified Unnecessary; a round is classified Changed iff changed_at is that stabilisation (no Changed for an unchanged value). The engine model is tied to /repo by running both on generated histories (channels api, ev, read) and the sequence predicate holds_C09 is evaluated by the Lean driver on the implementation's own trace. Not yet proved: that the engine queues every node with handlers whenever it changes (covered by correspondence only).",
+    note=ENGINE_NOTE,
+    ref="DESIGN.md §6 C09")
 ALL = ["C%02d" % i for i in range(1, 21)]
 NOT_YET = "no check registered at this commit: the model component for this property is still under construction (see DESIGN.md §9 order of work); nothing is claimed"
 
